@@ -229,13 +229,15 @@ def memmem_shards(ctx, parts, maxn, maxh, avails=("avx2", "vec", "none"), prefs=
 def oracle_shards(ctx, big=False):
     """P-layer vectors for S->I plus the oracle/lifting lemmas."""
     q = ctx.quick
-    S = [("so_lift", "MC_SubOracle", dict(Alpha={0, 1}, MinN=0, MaxN=4, MaxH=7 if q else 8, Scales={2, 3}, CheckLift=True, Emit=False), SO_INV, 4)]
+    S = [("so_lift", "MC_SubOracle", dict(Alpha={0, 1}, MinN=0, MaxN=4, MaxH=7 if q else 8, Scales={2, 3}, CheckLift=True, Emit=False, Hole=False), SO_INV, 4)]
     mxn, mxh = (5, 9) if q else (6, 11)
     for lo, hi in ((0, 3), (4, 4), (5, 5), (6, 6)):
         if lo > mxn:
             continue
-        S.append(("so_b%d" % lo, "MC_SubOracle", dict(Alpha={0, 1}, MinN=lo, MaxN=min(hi, mxn), MaxH=mxh, Scales={2}, CheckLift=False, Emit=True), SO_INV, 3))
-    S.append(("so_t", "MC_SubOracle", dict(Alpha={0, 1, 2}, MinN=1, MaxN=3, MaxH=6 if q else 7, Scales={2}, CheckLift=False, Emit=True), SO_INV, 3))
+        S.append(("so_b%d" % lo, "MC_SubOracle", dict(Alpha={0, 1}, MinN=lo, MaxN=min(hi, mxn), MaxH=mxh, Scales={2}, CheckLift=False, Emit=True, Hole=False), SO_INV, 3))
+    S.append(("so_t", "MC_SubOracle", dict(Alpha={0, 1, 2}, MinN=1, MaxN=3, MaxH=6 if q else 7, Scales={2}, CheckLift=False, Emit=True, Hole=False), SO_INV, 3))
+    # binary needles, binary haystacks with one byte from outside the needle's alphabet (byte-set skips, resets of remembered state)
+    S.append(("so_h", "MC_SubOracle", dict(Alpha={0, 1}, MinN=2, MaxN=3 if q else 4, MaxH=9 if q else 10, Scales={2}, CheckLift=False, Emit=True, Hole=True), SO_INV, 3))
     return S
 
 
@@ -387,6 +389,53 @@ def c19(ctx):
                     "behaviour replayed on Pair::with_ranker / with_indices")
 
 
+OBJ_INV = ["FindPure", "IterGreedy", "CloneGreedy", "EmitReplay"]
+
+
+def c16(ctx):
+    binp = C.build_harness()
+    q = ctx.quick
+    shards = []
+    for nl, mh, dp in ((4, 8, 5 if q else 6), (2, 6, 4 if q else 6), (1, 4, 5), (5, 9 if q else 10, 4 if q else 5)):
+        shards.append(("obj%d" % nl, "MC_MemmemObjects", sub(K_MM, Alpha={0, 1}, MinN=nl, MaxN=nl, MaxH=mh, Avails={"avx2", "none"},
+                                                             Prefs={"auto"}, Depth=dp, Emit=True), OBJ_INV, 4))
+    os_ = oracle_shards(ctx)
+    res = run_shards(ctx, shards + os_, timeout=3000)
+    ovec, on = vec_of(ctx, res, shards, "obj.ndjson")
+    vec, n = vec_of(ctx, res, os_, "mm.ndjson")
+    ctx.traces += on + n
+    ctx.nontrivial += on
+    for f in ("avx2", "sse2", "fallback"):
+        replay_cmd(ctx, binp, "replay-obj", ovec, "obj@%s" % f, {"result", "panic"}, extra=["--lifts", 5 if q else 9, "--force", f])
+    mm_replay(ctx, binp, vec, "objects", {"result", "panic"}, 4 if q else 8)
+    ctx.evaluations += sum_exec(ctx, ["obj_exec", "mm_exec"])
+    return C.finish(ctx, "model_checking",
+                    "MC_MemmemObjects: action-style spec of a Finder searched over several haystacks in any order, a partially consumed FindIter, its clone, into_owned and the "
+                    "death of the needle buffer; TLC visits every operation order up to Depth for every needle and every first haystack with >= 2 matches; invariants: every "
+                    "find equals the oracle whatever happened before, iterator and clone yield prefixes of the greedy sequence; each complete behaviour is replayed on real "
+                    "objects (1:1 and lifted; the original needle buffer is overwritten and dropped after into_owned); plus fixed reuse/clone/as_ref/into_owned sequences on every oracle vector")
+
+
+def c17(ctx):
+    binp = C.build_harness()
+    q = ctx.quick
+    os_ = oracle_shards(ctx)
+    its = [("it0", "MemchrIter", dict(MinN=0, MinLen=0, MaxLen=7, ExtraNones=2, Emit=True), ITER_INV, 4)]
+    its[0][2].pop("MinN")
+    res = run_shards(ctx, os_ + its, timeout=3000)
+    vec, n = vec_of(ctx, res, os_, "mm.ndjson")
+    ivec, inn = vec_of(ctx, res, its, "iter.ndjson")
+    ctx.traces += n + inn
+    ctx.nontrivial += n
+    mm_replay(ctx, binp, vec, "find,rfind,iter,riter", {"alloc"}, 5 if q else 10)
+    replay_cmd(ctx, binp, "replay-alloc-bytes", ivec, "bytes_alloc", {"alloc"})
+    ctx.evaluations += sum_exec(ctx, ["mm_exec", "alloc_probe_exec"])
+    return C.finish(ctx, "exploration",
+                    "the spec contributes the classification of operations (only into_owned and shiftor::Finder::new may allocate) and the inputs: every oracle vector "
+                    "(all binary needles/haystacks within the bounds, 1:1 and lifted so that every strategy of the meta searcher is reached, under each forced dispatch level) "
+                    "and every byte-iterator behaviour is executed under a counting global allocator armed per thread around each individual call; distinct = distinct vectors")
+
+
 def c01(ctx):
     byte_search(ctx, ["find"], {"result", "panic"})
     return C.finish(ctx, "model_checking", RULE_BYTES)
@@ -403,7 +452,7 @@ def c07(ctx):
     return C.finish(ctx, "model_checking", RULE_BYTES)
 
 
-RECIPES = {"C01": c01, "C02": c02, "C03": c03, "C04": c04, "C06": c06, "C07": c07, "C08": c08, "C10": c10, "C11": c11, "C12": c12, "C18": c18, "C19": c19}
+RECIPES = {"C01": c01, "C02": c02, "C03": c03, "C04": c04, "C06": c06, "C07": c07, "C08": c08, "C10": c10, "C11": c11, "C12": c12, "C16": c16, "C17": c17, "C18": c18, "C19": c19}
 
 
 def run(prop, tier, seed):
@@ -426,7 +475,15 @@ def replay(prop, path, seed):
     with open(vp, "w") as f:
         f.write(json.dumps(vec) + "\n")
     m = vec.get("m")
-    if m == "iseq":
+    if m == "obj":
+        args = ["replay-obj", "--in", vp, "--lifts", 12, "--threads", 1]
+    elif m == "mm":
+        args = ["replay-mm", "--in", vp, "--lifts", 16, "--groups", "all", "--threads", 1]
+    elif m == "pp":
+        args = ["replay-pp", "--in", vp, "--threads", 1]
+    elif m == "pair":
+        args = ["replay-pair", "--in", vp, "--threads", 1]
+    elif m == "iseq":
         args = ["replay-iseq", "--in", vp, "--threads", 1, "--tmp", os.path.join(ctx.dir, "iso")]
     elif m == "iter":
         args = ["replay-iter", "--in", vp, "--variants", 12, "--stretches", 12, "--threads", 1]
